@@ -25,6 +25,11 @@ TB_L = COMMON_TB + [
     "kani/shims/crypto: ideal signatures (signature = (signer, digest)); 4-byte keys, 8-byte digests",
     "kani/shims/ed25519-dalek: abstract hash (xor-rotate mixing of the exact pre-image bytes); collision freedom assumed where stated",
     "kani/shims/async-recursion: identity attribute (call graph is acyclic)",
+    "kani/shims/bincode: same wire format as bincode 1.3 default options on serde's traits, errors without formatted messages",
+    "kani/shims/bytes: Bytes as an owned vector; kani/shims/futures: real futures-util except an array-backed FuturesUnordered",
+    "kani/overlay.py deasync: straight-line async fns of consensus/src/{core,synchronizer,messages,mempool}.rs lowered to plain functions (.await -> poll once, Pending = hard error)",
+    "kani/shims/vwit: witness channel (every symbolic draw is kani::any(); replayed natively from VERIF_WITNESS)",
+    "scripted store lookups (store::script_strict): asserted, never assumed",
 ]
 
 
@@ -32,10 +37,14 @@ def H(mod, name, profile="L", tier="quick", **kw):
     crate, path = _MOD[mod]
     d = dict(name=path + "::" + name, short=name, profile=profile, tier=tier, pkg=kw.pop("pkg", crate))
     d.update(kw)
+    if d.get("features"):
+        d["short"] = name + "__" + d["features"]
     return d
 
 
 SPECS = {}
+# properties whose check has been run to completion on the unchanged tree and is claimed in MANIFEST.json
+READY = {"C02", "C03", "C04", "C05", "C09", "C10", "C11", "C17", "C19"}
 
 # --------------------------------------------------------------------------------------------- C17
 SPECS["C17"] = dict(
@@ -83,7 +92,7 @@ SPECS["C02"] = dict(
     trusted_base=TB_L,
     assumptions=["abstract hash collision-free on the chain universe", "store holds every ancestor (representation invariant of process_block)"],
     harnesses=[
-        H("core_h", "c02_n%d_p%d_j%d" % (n, pat, j), tier=("quick" if n <= 3 else "thorough"), timeout=900, mem_gb=16, stubbing=True,
+        H("core_h", "c02_n%d_p%d_j%d" % (n, pat, j), tier=("quick" if (n <= 2 or (n == 3 and (pat in (0, 7) or (pat, j) in ((3, 0), (5, 1))))) else "thorough"), timeout=900, mem_gb=16, stubbing=True,
           symbolic="none of the rounds (they decide the walk's control flow); chain of %d blocks, gap pattern %s (gap %d), delivered prefix %d" % (n, bin(pat), 2 + (pat + j) % 3, j),
           asserts="delivered sequence == undelivered chain suffix, oldest first; no duplicate; no genesis placeholder; second commit delivers nothing")
         for n in (1, 2, 3, 4) for pat in range(2 ** n) for j in range(n)
@@ -96,17 +105,26 @@ SPECS["C02"] = dict(
 SPECS["C19"] = dict(
     level="model_checking",
     technique="bounded symbolic execution of the real Aggregator/QCMaker/TCMaker with a ghost stake accumulator (Kani/CBMC, SAT)",
-    bounds="committee of 4 with fully symbolic u32 stakes (total < 2^31); sequences of 4..5 votes/timeouts per maker, each from a symbolic member (duplicates possible), symbolic high-QC rounds; aggregator: 7 votes over 2 concrete blocks x 2 concrete rounds with symbolic authors, equal stakes",
+    bounds="committee of 4 with fully symbolic u32 stakes (total < 2^31); per maker 6 concrete author sequences of 4..5 votes/timeouts (with and without duplicates) under fully symbolic stakes and high-QC rounds; aggregator: one concrete 7-vote schedule over 2 blocks x 2 rounds, equal stakes",
     outside="longer sequences, more than 4 authorities, more than 2 digests/rounds in one run; real ed25519",
     trusted_base=TB_L,
     assumptions=["ideal signatures", "abstract hash collision-free on the 4 vote digests of a run"],
     harnesses=[
-        H("aggregator_h", "c19_qcmaker_k4", symbolic="4 stakes (u32, total<2^31), 4 vote authors, block digest, round", asserts="QC exactly at the first quorum crossing, once; duplicate -> AuthorityReuse; entries distinct and all voted; QC verifies"),
-        H("aggregator_h", "c19_qcmaker_k5", symbolic="4 stakes, 5 vote authors", asserts="as k4", timeout=900),
-        H("aggregator_h", "c19_tcmaker_k4", symbolic="4 stakes, 4 x (author, high-QC round), round", asserts="TC exactly at the first quorum crossing, once; entries carry each author's own high-QC round; TC verifies"),
-        H("aggregator_h", "c19_tcmaker_k5", symbolic="4 stakes, 5 x (author, high-QC round)", asserts="as k4", timeout=900),
-        H("aggregator_h", "c19_aggregator_no_mixing", symbolic="authors of 7 votes interleaved over 2 blocks x 2 rounds (keys concrete)", asserts="a QC holds only votes cast for its own (block, round); formed at the third distinct vote; verifies"),
-        H("aggregator_h", "c19_cleanup", symbolic="cleanup round", asserts="cleanup(c) drops exactly the partial quorums of rounds < c"),
+        H("aggregator_h", "c19_qcmaker_0123_at1", timeout=900, symbolic="4 stakes (u32, any total < 2^31 with that crossing point), block digest, round; authors 0,1,2,3; quorum crossed at the 1st", asserts="every step: Ok(None) before, the QC exactly at the crossing (entries = the distinct authors so far, verifies), Ok(None) after, AuthorityReuse for repeats"),
+        H("aggregator_h", "c19_qcmaker_0123_at2", timeout=900, symbolic="4 stakes (u32, any total < 2^31 with that crossing point), block digest, round; quorum at the 2nd", asserts="every step: Ok(None) before, the QC exactly at the crossing (entries = the distinct authors so far, verifies), Ok(None) after, AuthorityReuse for repeats"),
+        H("aggregator_h", "c19_qcmaker_0123_at3", timeout=900, symbolic="4 stakes (u32, any total < 2^31 with that crossing point), block digest, round; quorum at the 3rd", asserts="every step: Ok(None) before, the QC exactly at the crossing (entries = the distinct authors so far, verifies), Ok(None) after, AuthorityReuse for repeats"),
+        H("aggregator_h", "c19_qcmaker_0123_at4", timeout=900, symbolic="4 stakes (u32, any total < 2^31 with that crossing point), block digest, round; quorum at the 4th", asserts="every step: Ok(None) before, the QC exactly at the crossing (entries = the distinct authors so far, verifies), Ok(None) after, AuthorityReuse for repeats"),
+        H("aggregator_h", "c19_qcmaker_203_never", timeout=900, symbolic="4 stakes (u32, any total < 2^31 with that crossing point), block digest, round; authors 2,0,3; quorum never reached", asserts="every step: Ok(None) before, the QC exactly at the crossing (entries = the distinct authors so far, verifies), Ok(None) after, AuthorityReuse for repeats"),
+        H("aggregator_h", "c19_qcmaker_dup_11230_at3", timeout=900, symbolic="4 stakes (u32, any total < 2^31 with that crossing point), block digest, round; authors 1,1,2,3,0 (duplicate), quorum at the 3rd distinct", asserts="every step: Ok(None) before, the QC exactly at the crossing (entries = the distinct authors so far, verifies), Ok(None) after, AuthorityReuse for repeats"),
+        H("aggregator_h", "c19_qcmaker_dup_30332_at2", timeout=900, symbolic="4 stakes (u32, any total < 2^31 with that crossing point), block digest, round; authors 3,0,3,3,2, quorum at the 2nd distinct", asserts="every step: Ok(None) before, the QC exactly at the crossing (entries = the distinct authors so far, verifies), Ok(None) after, AuthorityReuse for repeats"),
+        H("aggregator_h", "c19_qcmaker_dup_2201_at3", timeout=900, symbolic="4 stakes (u32, any total < 2^31 with that crossing point), block digest, round; authors 2,2,0,1, quorum at the 3rd distinct", asserts="every step: Ok(None) before, the QC exactly at the crossing (entries = the distinct authors so far, verifies), Ok(None) after, AuthorityReuse for repeats"),
+        H("aggregator_h", "c19_tcmaker_3120_at2", timeout=900, symbolic="4 stakes, high-QC rounds, round; authors 3,1,2,0; quorum at the 2nd", asserts="as the QC makers; every TC entry carries its author's own high-QC round"),
+        H("aggregator_h", "c19_tcmaker_3120_at3", timeout=900, symbolic="4 stakes, high-QC rounds, round; quorum at the 3rd", asserts="as the QC makers; every TC entry carries its author's own high-QC round"),
+        H("aggregator_h", "c19_tcmaker_dup_0221_at3", timeout=900, symbolic="4 stakes, high-QC rounds, round; authors 0,2,2,1; quorum at the 3rd distinct", asserts="as the QC makers; every TC entry carries its author's own high-QC round"),
+        H("aggregator_h", "c19_aggregator_no_mixing", symbolic="none (7 votes interleaved over 2 blocks x 2 rounds, equal stakes)", asserts="a QC holds only votes cast for its own (block, round); formed at the third distinct vote; verifies"),
+        H("aggregator_h", "c19_cleanup_keep", symbolic="none", asserts="cleanup(c<=r) keeps the partial quorum of round r"),
+        H("aggregator_h", "c19_cleanup_drop", symbolic="none", asserts="cleanup(c>r) drops it"),
+        H("core2_h", "hv_quorum", stubbing=True, timeout=1200, mem_gb=20, symbolic="vote round, node state", asserts="Core level: the third distinct valid vote assembles the QC exactly once; acted upon only then"),
     ],
 )
 
@@ -135,6 +153,7 @@ SPECS["C04"] = dict(
         H("core2_h", "hp_qc_below_quorum", stubbing=True, timeout=1200, mem_gb=20, symbolic="proposal whose QC has 2 votes", asserts="as above"),
         H("core2_h", "hp_qc_repeated_signer", stubbing=True, timeout=1200, mem_gb=20, symbolic="proposal whose QC repeats a signer", asserts="as above"),
         H("core2_h", "hv_single", stubbing=True, timeout=900, mem_gb=16, symbolic="vote author/validity/round", asserts="invalid or non-member vote: nothing changes"),
+        H("core2_h", "hv_single_nonmember", stubbing=True, timeout=900, mem_gb=16, symbolic="vote of a non-member, validity, round", asserts="rejected, nothing changes"),
         H("core2_h", "htc_bad_sig", stubbing=True, timeout=900, mem_gb=16, symbolic="TC with a signature made for another round", asserts="rejected, nothing changes"),
         H("core2_h", "htc_below_quorum", stubbing=True, timeout=900, mem_gb=16, symbolic="TC with 2 entries", asserts="rejected, nothing changes"),
     ],
@@ -155,7 +174,7 @@ SPECS["C05"] = dict(
         H("core_h", "pb_first_notc", stubbing=True, timeout=900, mem_gb=16, symbolic="as above, rounds 1,2 above genesis", asserts="first commit delivers block 1 only (no genesis)"),
         H("core2_h", "hv_single", stubbing=True, timeout=900, mem_gb=16, symbolic="vote round/author/validity, node state", asserts="a vote never causes a commit"),
         H("core2_h", "htc_valid", stubbing=True, timeout=900, mem_gb=16, symbolic="TC round, node state", asserts="a TC never causes a commit"),
-        H("core2_h", "hp_valid", stubbing=True, timeout=1200, mem_gb=20, symbolic="proposal round/author, node state", asserts="a valid proposal over a consecutive certified 2-chain commits its head exactly once"),
+        H("core2_h", "hp_valid", stubbing=True, timeout=1200, mem_gb=20, symbolic="proposal round/author, node last_voted/high_qc (current round 7)", asserts="a valid proposal over a consecutive certified 2-chain commits its head exactly once"),
         H("core2_h", "hp_bad_qc_vote", stubbing=True, timeout=1200, mem_gb=20, symbolic="as hp_valid with one invalid QC signature", asserts="an uncertified proposal commits nothing"),
     ],
 )
@@ -170,7 +189,8 @@ SPECS["C09"] = dict(
     harnesses=[
         H("leader_h", "c09_leader_n4", symbolic="insertion order (24 permutations, symbolic), round u64", asserts="leader independent of insertion order; == sorted key [round mod n]; n consecutive rounds cover every authority"),
         H("core2_h", "hp_valid", stubbing=True, timeout=1200, mem_gb=20, symbolic="proposal round/author (leader or not), node state", asserts="a block of a non-leader is rejected with no effect; votes go to leader(round+1)"),
-        H("core2_h", "hv_quorum", stubbing=True, timeout=1200, mem_gb=20, symbolic="vote round, node state", asserts="exactly one Make(round+1) iff this node leads round+1, only after the round increased"),
+        H("core2_h", "hv_quorum", stubbing=True, timeout=1200, mem_gb=20, symbolic="node last_voted/high_qc; third vote of round 7 at the leader of round 8", asserts="exactly one Make(round+1) when this node leads round+1, only after the round increased; a late fourth vote requests nothing"),
+        H("core2_h", "hv_quorum_future_nonleader", stubbing=True, timeout=1200, mem_gb=20, symbolic="node last_voted/high_qc; votes of future round 9 at a non-leader in round 5", asserts="round jumps to 10 on the assembled QC; no proposal request"),
         H("core2_h", "htc_valid", stubbing=True, timeout=900, mem_gb=16, symbolic="TC round, node state", asserts="exactly one Make(round+1, tc) iff this node leads round+1"),
         H("core2_h", "hv_single", stubbing=True, timeout=900, mem_gb=16, symbolic="vote", asserts="no proposal request without entering a new round"),
         H("leader_h", "c09_leader_n3", profile="L8", tier="thorough", symbolic="3 keys", asserts="as n4"),
@@ -186,9 +206,12 @@ SPECS["C10"] = dict(
     trusted_base=TB_L,
     assumptions=["ideal signatures", "representation invariant: round>=1, last_voted_round<=round, high_qc.round<round"],
     harnesses=[
-        H("core2_h", "hp_valid", stubbing=True, timeout=1200, mem_gb=20, symbolic="proposal round/author, node state", asserts="round' = max(round, qc.round+1); high_qc' = max; timer reset iff advanced; never decreases"),
+        H("core2_h", "hp_valid", stubbing=True, timeout=1200, mem_gb=20, symbolic="proposal round/author, node last_voted/high_qc; current round 7", asserts="round' = max(round, qc.round+1); high_qc' = max; timer reset iff advanced; never decreases"),
+        H("core2_h", "hp_valid_behind", stubbing=True, timeout=1200, mem_gb=20, symbolic="as hp_valid, current round 3 (behind the proposal's QC)", asserts="enters round 7 on the QC's evidence, timer reset"),
+        H("core2_h", "hp_valid_ahead", stubbing=True, timeout=1200, mem_gb=20, symbolic="as hp_valid, current round 9 (ahead)", asserts="round and timer unchanged"),
         H("core2_h", "hv_single", stubbing=True, timeout=900, mem_gb=16, symbolic="vote, node state", asserts="no round/high_qc change without a certificate"),
-        H("core2_h", "hv_quorum", stubbing=True, timeout=1200, mem_gb=20, symbolic="vote round, node state", asserts="round' = r+1 exactly when the QC for r is assembled; high_qc' = max; Make carries high_qc"),
+        H("core2_h", "hv_quorum", stubbing=True, timeout=1200, mem_gb=20, symbolic="node last_voted/high_qc", asserts="round' = r+1 exactly when the QC for r is assembled; high_qc' = max; timer reset; Make carries high_qc"),
+        H("core2_h", "hv_quorum_future_nonleader", stubbing=True, timeout=1200, mem_gb=20, symbolic="node last_voted/high_qc", asserts="as hv_quorum for a future round"),
         H("core2_h", "htc_valid", stubbing=True, timeout=900, mem_gb=16, symbolic="TC round, node state", asserts="round' = tc.round+1 iff tc.round >= round; stale TC ignored; high_qc untouched"),
         H("core2_h", "htc_bad_sig", stubbing=True, timeout=900, mem_gb=16, symbolic="TC with a transplanted signature", asserts="invalid TC: no round change"),
         H("core2_h", "lt_local_timeout", stubbing=True, timeout=900, mem_gb=16, symbolic="node state", asserts="Timeout on the wire carries round == current round and high_qc == node's high_qc; round unchanged"),
@@ -196,4 +219,77 @@ SPECS["C10"] = dict(
     ],
 )
 
-SPECS["DBG"] = dict(harnesses=[H("core_h", "dbg_commit_one", timeout=200, need_cover=False, stubbing=True), H("core_h", "dbg_parent_one", timeout=200, need_cover=False, stubbing=True), H("core_h", "dbg_ser_de", timeout=120, need_cover=False, stubbing=True), H("core_h", "dbg_store_de", timeout=120, need_cover=False, stubbing=True)])
+TB_R = COMMON_TB + [
+    "kani/shims/tokio, store, network (as profile L)",
+    "kani/shims/ed25519-dalek: abstract hash that records the exact pre-image; ideal compile-level signature model (never claimed)",
+    "REAL in this profile: crypto/src/lib.rs, base64, serde impls, bincode, 32/64-byte key/digest/signature types",
+]
+# --------------------------------------------------------------------------------------------- C20
+SPECS["C20"] = dict(
+    level="model_checking",
+    technique="bounded symbolic execution of the real digest() functions with a pre-image-recording hash, and of real bincode round trips (Kani/CBMC, SAT)",
+    bounds="two arbitrary blocks with 0,1,2 payload digests each (equal lengths: injectivity; lengths 0/1, 1/2: separation); arbitrary votes, QCs, timeouts; all 32-byte fields and u64 rounds fully symbolic; vote round trip through real bincode",
+    outside="SHA-512/256 collision resistance (assumed: equal digests only for equal pre-images); payloads above 2; block/timeout/TC round trips through real bincode (thorough only, if they fit); the store path is covered with the bincode shim in profile L harnesses",
+    trusted_base=TB_R,
+    assumptions=["the real hash is collision resistant: digests coincide only if pre-images do"],
+    harnesses=[
+        H("messages_r", "c20_block_inj_0_0", profile="R", timeout=900, symbolic="2 blocks, no payload: author, round, parent (32+8+32 bytes each)", asserts="equal pre-images => equal author, round, payload, parent; pre-image lengths of block / vote / timeout pairwise different"),
+        H("messages_r", "c20_block_inj_1_1", profile="R", timeout=900, symbolic="2 blocks, 1 payload digest each", asserts="as 0_0"),
+        H("messages_r", "c20_block_inj_2_2", profile="R", timeout=1200, symbolic="2 blocks, 2 payload digests each", asserts="as 0_0"),
+        H("messages_r", "c20_block_len_0_1", profile="R", timeout=900, symbolic="blocks with 0 and 1 payload digests", asserts="pre-images differ"),
+        H("messages_r", "c20_block_len_1_2", profile="R", timeout=900, symbolic="blocks with 1 and 2 payload digests", asserts="pre-images differ"),
+        H("messages_r", "c20_vote_qc_timeout", profile="R", timeout=900, symbolic="2 votes, 2 timeouts", asserts="vote/QC digest binds (block, round); QC digest == digest its votes sign; timeout digest binds (round, high-QC round); kinds separated"),
+        H("messages_r", "c20_vote_roundtrip", profile="R", timeout=1200, stubbing=True, symbolic="vote fields", asserts="real bincode serialize->deserialize keeps fields and digest"),
+    ],
+)
+# --------------------------------------------------------------------------------------------- C18 (encodings only)
+SPECS["C18"] = dict(
+    level="model_checking",
+    technique="bounded symbolic execution of the real key/signature encoders over the real base64 crate (Kani/CBMC, SAT)",
+    bounds="every 32-byte public key value (encode -> decode); every (part1, part2) signature value (flatten)",
+    outside="PARTIAL CLAIM: ed25519 sign/verify soundness, bit-flip rejection and batch==individual are NOT decided (curve arithmetic and SHA-512 are out of reach of bit-blasting); secret-key round trip (thorough); JSON key/committee files (serde_json, file I/O)",
+    trusted_base=TB_R,
+    assumptions=[],
+    harnesses=[
+        H("crypto_r", "c18_pk_roundtrip", profile="R", pkg="crypto", stubbing=True, timeout=1500, mem_gb=20, symbolic="32 key bytes", asserts="decode_base64(encode_base64(k)) == k; text length 44"),
+        H("crypto_r", "c18_signature_layout", profile="R", pkg="crypto", symbolic="64 signature bytes", asserts="flatten() == part1 || part2"),
+    ],
+)
+
+# --------------------------------------------------------------------------------------------- C11
+SPECS["C11"] = dict(
+    level="model_checking",
+    technique="bounded symbolic execution of the real BatchMaker::seal (Kani/CBMC, SAT), default and benchmark builds",
+    bounds="open batches of 1..3 transactions with concrete sizes (0, 1, 4, 6, 9, 12 bytes; incl. an empty transaction and shapes that look like benchmark sample transactions) and fully symbolic contents; 3 peers",
+    outside="PARTIAL CLAIM: the size/timer trigger logic of BatchMaker::run (the real select! loop is a compiler-generated coroutine; driving it did not finish symbolic execution in 900 s, with and without lowering seal) - so 'sealed as soon as the threshold is reached or the delay elapses' is NOT decided; Processor / receiver-side hashing (digest binding is C20); other sizes",
+    trusted_base=TB_L,
+    assumptions=[],
+    harnesses=[
+        H("batch_maker_h", "c11_seal_4_6", stubbing=True, timeout=900, mem_gb=16, symbolic="bytes of 2 transactions (4, 6 bytes)", asserts="sealed message == the open transactions in order, byte-identical; broadcast bytes == sealed message, once per peer; 3 ack handles; open batch and size counter reset"),
+        H("batch_maker_h", "c11_seal_empty_tx", stubbing=True, timeout=900, mem_gb=16, symbolic="one empty transaction", asserts="as above"),
+        H("batch_maker_h", "c11_seal_1_0_9", stubbing=True, timeout=900, mem_gb=16, symbolic="bytes of 3 transactions (1, 0, 9 bytes)", asserts="as above"),
+        H("batch_maker_h", "c11_seal_12", stubbing=True, timeout=900, mem_gb=16, symbolic="12 bytes", asserts="as above"),
+        H("batch_maker_h", "c11_seal_empty_tx", features="benchmark", stubbing=True, timeout=900, mem_gb=16, symbolic="one empty transaction, benchmark build", asserts="no panic in the sample-transaction scan"),
+        H("batch_maker_h", "c11_seal_1_0_9", features="benchmark", stubbing=True, timeout=900, mem_gb=16, symbolic="3 transactions (1, 0, 9 bytes), first byte symbolic (0 = sample), benchmark build", asserts="no panic; same batch as the default build"),
+    ],
+)
+
+# --------------------------------------------------------------------------------------------- C12
+SPECS["C12"] = dict(
+    level="model_checking",
+    technique="bounded symbolic execution of the real QuorumWaiter::run loop with harness-resolved acknowledgement handles (Kani/CBMC, SAT)",
+    bounds="committee of 4 with fully symbolic u32 stakes (own stake symbolic, total < 2^31); one batch with 3 handles acknowledged in 4 concrete orders/subsets (all, rotated, one peer only, two peers); two batches in flight with equal stakes and interleaved acknowledgements",
+    outside="other acknowledgement orders; more than 2 batches in flight; handles whose sender is dropped without a reply (counted as an acknowledgement by the code; ReliableSender never does that, see C14); the dissemination-deadline branch (unreachable: pending_counter never reaches the queue bound)",
+    trusted_base=TB_L + ["kani/shims/futures: array-backed FuturesUnordered polled in index order (everything else is the real futures-util)"],
+    assumptions=["an acknowledgement handle resolves only with the peer's reply to that message (contract of ReliableSender)"],
+    harnesses=[
+        H("quorum_waiter_h", "c12_acks_123", pkg="mempool", stubbing=True, timeout=900, mem_gb=16, symbolic="4 stakes", asserts="after each ack: batch on the consensus channel <=> own + acknowledged stake >= quorum_threshold; never twice; task keeps running"),
+        H("quorum_waiter_h", "c12_acks_312", pkg="mempool", stubbing=True, timeout=900, mem_gb=16, symbolic="4 stakes", asserts="as 123"),
+        H("quorum_waiter_h", "c12_acks_2_only", pkg="mempool", stubbing=True, timeout=900, mem_gb=16, symbolic="4 stakes", asserts="as 123 (two peers never answer)"),
+        H("quorum_waiter_h", "c12_acks_23", pkg="mempool", stubbing=True, timeout=900, mem_gb=16, symbolic="4 stakes", asserts="as 123 (one peer never answers)"),
+        H("quorum_waiter_h", "c12_two_batches", pkg="mempool", stubbing=True, timeout=900, mem_gb=16, symbolic="batch bytes", asserts="acks of one batch never count for another; batches forwarded in order, unchanged"),
+    ],
+)
+
+# C16: see NOT_APPLICABLE in lib/gen_manifest.py (harness kept for reference as DBG entries)
+SPECS["DBG"] = dict(harnesses=[H("store_h", "dbg_store_min", profile="S", timeout=400, need_cover=False), H("config_h", "dbg_const_threshold", timeout=300, need_cover=False), H("core_h", "dbg_commit_one", timeout=200, need_cover=False, stubbing=True), H("core_h", "dbg_parent_one", timeout=200, need_cover=False, stubbing=True), H("core_h", "dbg_ser_de", timeout=120, need_cover=False, stubbing=True), H("core_h", "dbg_store_de", timeout=120, need_cover=False, stubbing=True)])
